@@ -30,7 +30,7 @@ import tempfile
 from lxml import etree
 
 from vlib import c15_images as IMG
-from vlib.core import REPO, HarnessError, Violation, hyp_search, sut
+from vlib.core import REPO, HarnessError, Violation, from_jsonable, hyp_search, sut
 from vlib.opcmodel import Pkg
 
 PROPERTY = "C15"
@@ -594,11 +594,12 @@ class Run:
         by_bytes = {}
         for n in sorted(media):
             by_bytes.setdefault(media[n], []).append(n)
-        # start members stay as they are
+        # the start deck's media bytes are still there (under whatever name)
         for n, b in sorted(self.start_media.items()):
-            if media.get(n) != b:
-                self.fail(Violation("C15:stored-bytes:start-member-changed", "%s: %s of the start deck %s"
-                                    % (what, n, "is gone" if n not in media else "has other bytes")))
+            nstart = sum(1 for x in self.start_media.values() if x == b)
+            if len(by_bytes.get(b, [])) < nstart:
+                self.fail(Violation("C15:stored-bytes:start-member-lost", "%s: the bytes of %s of the start "
+                                    "deck are no longer stored (members %r)" % (what, n, sorted(media))))
         for b in exp_new:
             names = by_bytes.get(b, [])
             info = self.infos[b]
@@ -653,9 +654,12 @@ class Run:
                 roots[sn] = (_xml(pk.members[sn]), {x.id: x for x in pk.rels(sn)})
             root, rels = roots[sn]
             hits = find_shape(root, r["id"])
-            if len(hits) != 1:
-                self.fail(Violation("C15:ref:shape-not-unique", "%s: %s: %d elements with id %r in %s"
-                                    % (what, r["where"], len(hits), r["id"], sn)))
+            if not hits:
+                self.fail(Violation("C15:ref:shape-missing:%s" % r["kind"], "%s: %s: no element with id %r in %s"
+                                    % (what, r["where"], r["id"], sn)))
+                continue
+            if len(hits) > 1:   # duplicate shape ids are C06's subject; cannot tell which one is ours
+                self.classes.append("ref-unchecked-duplicate-id")
                 continue
             el = hits[0]
             blip = el.find(".//a:blip", NS)
@@ -929,13 +933,21 @@ def run_job(job, seed, tier, rec, known):
         strat = strategies()
         fails = []
         skip = set()
-        for rnd in range(5):
+        for rnd in range(3):
             f = hyp_search(_make_fn(rec, known, skip), strat, seed=seed * 7 + rnd, max_examples=job["n"],
-                           rec=rec, known={}, max_rounds=1, shrink_budget=150)
+                           rec=rec, known={}, max_rounds=1, shrink_budget=60)
             if not f:
                 break
-            fails += f
-            skip.update(x["key"] for x in f)
+            for x in f:
+                # every other unknown key the shrunk case shows is reported with it (same round)
+                viol, _nt, _cls = run_case(from_jsonable(x["case"]))
+                for v in viol:
+                    if v.key not in known and v.key not in skip:
+                        skip.add(v.key)
+                        fails.append({"key": v.key, "message": v.message, "case": x["case"]})
+                if x["key"] not in skip:
+                    skip.add(x["key"])
+                    fails.append(x)
         return fails
     if kind == "grid":
         cases = grid_cases(tier, job["shard"], job["nshard"])
